@@ -2,6 +2,11 @@ mod common;
 mod c18;
 mod c17;
 mod merge;
+mod fixtures;
+mod probe;
+mod io_script;
+mod c10;
+mod c11;
 mod canon;
 
 use common::Args;
@@ -42,6 +47,10 @@ fn main() {
     match args.prop.as_str() {
         "C18" => c18::run(&args),
         "C17" => c17::run(&args),
+        "probe" => probe::run(),
+        "probe-det" => probe::det(),
+        "C10" => c10::run(&args),
+        "C11" => c11::run(&args),
         "C13" | "C14" | "C15" | "C16" => merge::run(&args),
         p => { eprintln!("unknown property {}", p); std::process::exit(2); }
     }
